@@ -326,60 +326,134 @@ def _unsigned_chain(repo: Repo, res: RuleResult) -> None:
 
 @rule("F5", "--endian selects exactly the little- and/or big-endian statement lists, `both` under #ifndef BP_BIG_ENDIAN / #else / #endif")
 def f5(repo: Repo) -> RuleResult:
+    from .emit import block_flow, render_hole
+    from .flows import compiler_flow
+    from .normal import C as K, V, show
+    from .pyflow import single_atom, str_of, tpl_shape
+
     res = RuleResult("F5", floor=2)
     m = get_model(repo)
+
+    def endian_decider(value: str):
+        def dec(key: Any) -> Optional[bool]:
+            if key[0] in ("eq", "is") and len(key) == 3:
+                a_, b_ = key[1], key[2]
+                sa_, sb_ = str_of(a_), str_of(b_)
+                other = b_ if sa_ is not None else a_
+                lit = sa_ if sa_ is not None else sb_
+                if lit is not None and "optimization_mode_endian" in show(other):
+                    return lit == value
+            if key[0] == "in" and "optimization_mode_endian" in show(key[1]):
+                return value in key[2]
+            return None
+
+        return dec
+
+    def events(p_: Any) -> Optional[List[Tuple[Any, ...]]]:
+        out: List[Tuple[Any, ...]] = []
+        for e in p_.effects:
+            if e.kind == "call" and e.name == "push" and e.args:
+                t = tpl_shape(e.args[0], lambda h: "{" + show(h) + "}") or "{?}"
+                if t.lstrip().startswith("#"):
+                    out.append(("line", t.strip()))
+            elif e.kind == "loop":
+                it = single_atom(e.args[0]) if e.args else None
+                if it is not None and it[0] == "mcall" and it[1] == "format_op_mode_message_endian":
+                    pos = [x for x in it[2][1:] if not (single_atom(x) is not None and single_atom(x)[0] == "kw")]
+                    kws = {single_atom(x)[1]: single_atom(x)[2] for x in it[2][1:] if single_atom(x) is not None and single_atom(x)[0] == "kw"}
+                    names = ["message", "is_encode", "big_endian"]
+                    vals = dict(zip(names, pos))
+                    vals.update(kws)
+                    ok_body = all(len([c for c in b.effects if c.kind == "call" and c.name == "push"]) == 1 for b in (e.sub or []))
+                    out.append(("stmts", show(vals.get("message", K(-1))), vals.get("is_encode", K(-1)).const_value(), vals.get("big_endian", K(-1)).const_value(), ok_body))
+                else:
+                    return None
+        return out
+
     for cname, is_enc in (("BlockMessageEncoderOpMode", True), ("BlockMessageDecoderOpMode", False)):
         try:
-            fi = m.func("impls/c/renderer_c.py", f"{cname}._push_body")
+            c = m.cls(cname, "impls/c/renderer_c.py")
+            rfn = m.lookup(c, "render")
+            if rfn is None:
+                raise Inconclusive(f"{cname}.render not found")
         except Inconclusive as e:
             res.unsure(f"F5: {e}")
             continue
-        inner = {n.name: n for n in ast.walk(fi.node) if isinstance(n, ast.FunctionDef) and n is not fi.node}
-        res.inst(function=fi.qual, inner=sorted(inner))
-        if set(inner) != {"le", "be"}:
-            res.unsure(f"F5: {fi.qual}: inner le()/be() helpers not found")
-            continue
-        for nm, want_be in (("le", False), ("be", True)):
-            cs = [n for n in ast.walk(inner[nm]) if isinstance(n, ast.Call) and isinstance(n.func, ast.Attribute) and n.func.attr == "format_op_mode_message_endian"]
-            ok = len(cs) == 1
-            if ok:
-                kws = {k.arg: src_of(k.value) for k in cs[0].keywords}
-                ok = kws.get("is_encode") == str(is_enc) and kws.get("big_endian") == str(want_be) and cs[0].args and src_of(cs[0].args[0]) == "self.d"
-            if not ok:
-                res.bad(Finding("F5", fi.rel, inner[nm].lineno, fi.qual, nm, f"{nm}() does not emit the statements of this message with is_encode={is_enc}, big_endian={want_be}", witness="--endian little output contains the big-endian statements (or the encoder the decoder's)", tag=f"{cname}:{nm}"))
-        # selection structure at top level of _push_body
-        top = [s for s in fi.node.body if isinstance(s, ast.If)]
-        seq: List[Tuple[str, str]] = []
-        if len(top) == 1:
-            cur: Optional[ast.If] = top[0]
-            while cur is not None:
-                seq.append((src_of(cur.test), " ; ".join(src_of(s) for s in cur.body)))
-                if len(cur.orelse) == 1 and isinstance(cur.orelse[0], ast.If):
-                    cur = cur.orelse[0]
-                else:
-                    seq.append(("else", " ; ".join(src_of(s) for s in cur.orelse)))
-                    cur = None
-        res.inst(function=fi.qual, selection=seq)
-        want = [("endian == 'little'", "le()"), ("endian == 'big'", "be()"), ("else", "self.push('#ifndef BP_BIG_ENDIAN') ; le() ; self.push('#else') ; be() ; self.push('#endif')")]
-        if seq != want:
-            res.bad(Finding("F5", fi.rel, fi.node.lineno, fi.qual, str(seq), "the endian selection is not: little -> le(); big -> be(); both -> #ifndef BP_BIG_ENDIAN le() #else be() #endif", witness="the default output runs the byte-pointer statements on a big-endian host", tag=f"{cname}:selection"))
-    # the flag function
+        E = int(is_enc)
+        want = {
+            "little": [("stmts", "self.d", E, 0, True)],
+            "big": [("stmts", "self.d", E, 1, True)],
+            "both": [("line", "#ifndef BP_BIG_ENDIAN"), ("stmts", "self.d", E, 0, True), ("line", "#else"), ("stmts", "self.d", E, 1, True), ("line", "#endif")],
+        }
+        for value in ("little", "big", "both"):
+            try:
+                flow = block_flow(repo, cname, "impls/c/renderer_c.py", "CFormatter", "impls/c/formatter.py", {}, keep=("format_op_mode_message_endian", "_get_ctx_or_raise"), pure=("format_op_mode_message_endian", "_get_ctx_or_raise"))
+                flow.decide = endian_decider(value)
+                paths = [p_ for p_ in flow.run(rfn.node, {"self": V("self")}) if p_.done == "return"]
+            except Inconclusive as e:
+                res.unsure(f"F5: {cname}: {e}")
+                break
+            evs = [events(p_) for p_ in paths]
+            res.inst(function=f"{cname}.render", endian=value, events=[str(x) for x in evs][:2])
+            if len(paths) != 1 or evs[0] is None:
+                res.unsure(f"F5: {cname}.render: --endian {value}: {len(paths)} paths / unrecognised loop; selection not decided by the endian value alone")
+                break
+            if evs[0] != want[value]:
+                got = evs[0]
+                res.bad(Finding("F5", m.mod("impls/c/renderer_c.py").rel, c.node.lineno, f"{cname}.render", str(got), f"for --endian {value} the {'encoder' if is_enc else 'decoder'} body is {got}; expected {want[value]} (little -> little-endian statements; big -> big-endian statements; both -> #ifndef BP_BIG_ENDIAN little #else big #endif, each for this message and direction)", witness="the default output runs the byte-pointer statements on a big-endian host / --endian little output contains the big-endian statements", tag=f"{cname}:selection"))
+                break
+    # the flag function: mode flag = big_endian while the statements are generated, restored afterwards
     try:
         fe = m.func("impls/c/formatter.py", "CFormatter.format_op_mode_message_endian")
-        t = src_of(fe.node)
-        res.inst(function=fe.qual)
-        if "self._op_mode_big_endian = big_endian" not in t or "if is_encode:\n            return self.format_op_mode_encode_message(message)\n        return self.format_op_mode_decode_message(message)" not in t:
-            res.bad(Finding("F5", fe.rel, fe.node.lineno, fe.qual, "", "the mode flag is not set from big_endian before the statements are generated, or encode/decode are exchanged", tag="message_endian"))
+        params = [a.arg for a in fe.node.args.args]
+        ok = len(params) == 4
+        why = "parameter list changed"
+        if ok:
+            for enc in (True, False):
+                def dec(key: Any, enc: bool = enc) -> Optional[bool]:
+                    if key[0] == "truthy" and show(key[1]) == "is_encode":
+                        return enc
+                    return None
+
+                flow = compiler_flow(repo, "CFormatter", "impls/c/formatter.py", decide=dec, primitives=("format_op_mode_encode_message", "format_op_mode_decode_message"))
+                for p_ in flow.run(fe.node, {params[0]: V("self"), params[1]: V("message"), params[2]: V("is_encode"), params[3]: V("big_endian")}):
+                    if p_.done != "return":
+                        continue
+                    seq = [e for e in p_.effects if (e.kind == "setattr" and e.name.endswith("_op_mode_big_endian")) or (e.kind == "call" and e.name in ("format_op_mode_encode_message", "format_op_mode_decode_message"))]
+                    names = [(e.kind, e.name if e.kind == "call" else show(e.args[0])) for e in seq]
+                    want_call = "format_op_mode_encode_message" if enc else "format_op_mode_decode_message"
+                    if names != [("setattr", "big_endian"), ("call", want_call), ("setattr", "0")]:
+                        ok, why = False, f"is_encode={enc}: {names}"
+                    a_ = single_atom(p_.ret) if p_.ret is not None else None
+                    if a_ is None or a_[0] != "mcall" or a_[1] != want_call or [show(x) for x in a_[2]] != ["self", "message"]:
+                        ok, why = False, f"is_encode={enc}: returns {show(p_.ret) if p_.ret is not None else None}"
+        res.inst(function=fe.qual, ok=ok)
+        if not ok:
+            res.bad(Finding("F5", fe.rel, fe.node.lineno, fe.qual, why, f"the mode flag is not set from big_endian while the statements are generated (and cleared afterwards), or encode/decode are exchanged: {why}", witness="--endian big output contains byte-pointer statements", tag="message_endian"))
     except Inconclusive as e:
         res.unsure(f"F5: {e}")
-    # -O entry points
-    fm = m.mod("renderer/formatter.py").classes["Formatter"]
-    for meth, flag in (("format_op_mode_encode_message", "True"), ("format_op_mode_decode_message", "False")):
-        f2 = fm.methods.get(meth)
-        t = src_of(f2.node) if f2 else ""
-        res.inst(function=f"Formatter.{meth}")
-        if f"return self.format_op_mode_endecode_message(message, field_name_chain, {flag}, [0])" not in t:
-            res.bad(Finding("F5", "compiler/bitproto/renderer/formatter.py", f2.node.lineno if f2 else 0, f"Formatter.{meth}", "", f"the planner is not started with is_encode={flag} and a fresh bit cursor [0]", witness="the second message of a file starts at the first one's end offset", tag=meth))
+    # -O entry points: planner started with the direction and a fresh bit cursor [0]
+    for meth, flag in (("format_op_mode_encode_message", 1), ("format_op_mode_decode_message", 0)):
+        try:
+            f2 = m.func("renderer/formatter.py", f"Formatter.{meth}")
+            flow = compiler_flow(repo, "Formatter", "renderer/formatter.py", primitives=("format_op_mode_endecode_message", "format_op_mode_endecoder_message_var"), pure=("format_op_mode_endecoder_message_var",))
+            ok = True
+            got = ""
+            for p_ in flow.run(f2.node, {"self": V("self"), f2.node.args.args[1].arg: V("message")}):
+                a_ = single_atom(p_.ret) if p_.ret is not None else None
+                got = show(p_.ret) if p_.ret is not None else "None"
+                if a_ is None or a_[0] != "mcall" or a_[1] != "format_op_mode_endecode_message" or len(a_[2]) != 5:
+                    ok = False
+                    continue
+                _, msg, chain, enc, cur = a_[2]
+                ca = single_atom(chain)
+                if show(msg) != "message" or enc.const_value() != flag or show(cur) != "(0)" or ca is None or ca[0] != "mcall" or ca[1] != "format_op_mode_endecoder_message_var":
+                    ok = False
+            res.inst(function=f"Formatter.{meth}", ok=ok)
+            if not ok:
+                res.bad(Finding("F5", f2.rel, f2.node.lineno, f"Formatter.{meth}", got, f"the planner is not started with is_encode={bool(flag)} and a fresh bit cursor [0]", witness="the second message of a file starts at the first one's end offset", tag=meth))
+        except Inconclusive as e:
+            res.unsure(f"F5: {e}")
     return res
 
 
